@@ -71,30 +71,48 @@ class Lean:
         fcntl.flock(f, fcntl.LOCK_EX)
         return f
 
-    def regenerate(self):
-        """Run the translator: AST facts of the repo -> Model/Generated.lean.  Returns (ok, message)."""
+    def regenerate(self, prop=None):
+        """Run the translator: AST facts of the repo -> Model/Generated.lean, and the property's own
+        plug-in extractor harness/extract_<prop>.py -> Model/Generated<Prop>.lean when it exists.
+        Returns (ok, message)."""
         import extract
 
-        try:
-            text = extract.generate(REPO)
-        except extract.ExtractError as e:
-            return False, f"extractor: {e}"
-        path = os.path.join(self.dir, "CubedModel", "Model", "Generated.lean")
-        old = open(path).read() if os.path.exists(path) else None
-        if old != text:
-            with open(path, "w") as f:
-                f.write(text)
-        return True, "regenerated" if old != text else "unchanged"
+        jobs = [(extract, "Generated")]
+        if prop and os.path.exists(os.path.join(VERIF, "harness", f"extract_{prop.lower()}.py")):
+            import importlib
+            jobs.append((importlib.import_module(f"extract_{prop.lower()}"), f"Generated{prop}"))
+        msgs = []
+        for mod, name in jobs:
+            try:
+                text = extract.generate(REPO, mod, name)
+            except extract.ExtractError as e:
+                return False, f"extractor ({name}): model out of date: {e}"
+            path = os.path.join(self.dir, "CubedModel", "Model", f"{name}.lean")
+            old = open(path).read() if os.path.exists(path) else None
+            if old != text:
+                with open(path, "w") as f:
+                    f.write(text)
+            msgs.append(f"{name}: " + ("regenerated" if old != text else "unchanged"))
+        return True, "; ".join(msgs)
 
-    def build(self, targets=None, timeout=1500):
-        """lake build under a lock.  Returns (ok, log)."""
+    def driver_imports(self, driver):
+        path = os.path.join(self.dir, "drivers", f"{driver}.lean")
+        if not driver or not os.path.exists(path):
+            return []
+        return re.findall(r"^import\s+(CubedModel\.\S+)", open(path).read(), re.M)
+
+    def build(self, prop=None, driver=None, timeout=1500):
+        """lake build (only the modules this property needs) under a lock.  Returns (ok, log)."""
         lock = self._lock()
         try:
-            ok_gen, msg = self.regenerate()
+            ok_gen, msg = self.regenerate(prop)
             if not ok_gen:
                 self.build_log = msg
                 return False, msg
-            cmd = ["lake", "build"] + (targets or [])
+            targets = []
+            if prop:
+                targets = [f"CubedModel.Properties.{prop}"] + self.driver_imports(driver)
+            cmd = ["lake", "build"] + targets
             p = subprocess.run(cmd, cwd=self.dir, capture_output=True, text=True, timeout=timeout)
             self.build_log = p.stdout + p.stderr
             return p.returncode == 0, self.build_log
@@ -319,7 +337,7 @@ def run_check(prop, mod, tier, seed, replay=None):
             else:
                 print("this property has no replay hook; re-run with the seed in the replay file")
         # 1-3 build + audit
-        ok, log = lean.build()
+        ok, log = lean.build(prop, getattr(mod, "DRIVER", None))
         if not ok:
             names = re.findall(r"error: (\S+\.lean:\d+:\d+)[: ]*(.*)", log)
             ctx.broken.append({"what": "lake build failed", "where": names[:5], "log": log[-1500:]})
